@@ -24,6 +24,12 @@ from mc.evidence import HarnessError
 
 from . import _treestates as ts
 
+def _cpu():
+    import resource
+    return round(sum(resource.getrusage(w).ru_utime + resource.getrusage(w).ru_stime
+                     for w in (resource.RUSAGE_SELF, resource.RUSAGE_CHILDREN)), 1)
+
+
 ID = "C11"
 LEVEL = "exploration"
 TECHNIQUE = "exhaustive enumeration of layouts x ignore-rule subsets x pre-versioned sets x argument lists on real working trees against a reference function"
@@ -365,5 +371,6 @@ def run(ctx):
         "prepared_trees": len(items),
         "distinct_versioned_sets": len(acc.outcomes),
         "samples": acc.samples[:3],
+        "cpu_s": _cpu(),
         "exhaustive": True,
     }
